@@ -259,6 +259,15 @@ Definition file_total (raw : list raw_schedule) : bool :=
 
 Definition all_files_total : bool := forallb (fun nr => file_total (snd nr)) bundled.
 
+(* every cell of the finite check is the (month, day, weekday) of a real date: a year of the 28-year
+   cycle 2000..2027 in which that date exists and falls on that weekday *)
+Definition witness_years : list Z := map Z.of_nat (seq 2000 28).
+Definition cell_year (c : Z * Z * Z) : option Z :=
+  let '(m, d, wd) := c in
+  find (fun y => valid_date y m d && Z.eqb (weekday (ordinal y m d)) wd) witness_years.
+Definition all_cells_realised : bool :=
+  forallb (fun c => match cell_year c with Some _ => true | None => false end) calendar_cells.
+
 (* what the search evaluates when the check above is false: per file, the constructor error or the
    cells (month, day, weekday) with zero or several valid schedules, with that count *)
 Definition file_failures (raw : list raw_schedule) : res (list (Z * Z * Z * nat)) :=
